@@ -13,17 +13,17 @@ for d in /verif/seeded/C*-*m* /verif/mutants/*.diff; do
 done
 echo "${#LIST[@]} changes, $L lanes"
 for k in $(seq 0 $((L-1))); do
-  rm -rf /tmp/lane$k; mkdir -p /tmp/lane$k
-  git clone -q /repo /tmp/lane$k/repo
-  rsync -a --exclude target --exclude replays /verif/ /tmp/lane$k/verif/
-  cp -a /verif/target /tmp/lane$k/verif/target
-  : > /tmp/lane$k/list
+  rm -rf /tmp/${LANEP:-lane}$k; mkdir -p /tmp/${LANEP:-lane}$k
+  git clone -q /repo /tmp/${LANEP:-lane}$k/repo
+  rsync -a --exclude target --exclude replays /verif/ /tmp/${LANEP:-lane}$k/verif/
+  cp -a /verif/target /tmp/${LANEP:-lane}$k/verif/target
+  : > /tmp/${LANEP:-lane}$k/list
 done
 i=0
-for d in "${LIST[@]}"; do echo "$d" >> /tmp/lane$((i % L))/list; i=$((i+1)); done
+for d in "${LIST[@]}"; do echo "$d" >> /tmp/${LANEP:-lane}$((i % L))/list; i=$((i+1)); done
 for k in $(seq 0 $((L-1))); do
   unshare -m bash -c "
-    mount --bind /tmp/lane$k/repo /repo && mount --bind /tmp/lane$k/verif /verif || exit 2
+    mount --bind /tmp/${LANEP:-lane}$k/repo /repo && mount --bind /tmp/${LANEP:-lane}$k/verif /verif || exit 2
     cd /verif
     while read -r d; do
       if [ -d \"\$d\" ]; then patch=\$d/patch.diff; name=\$(basename \$d); else patch=\$d; name=\$(basename \$d .diff); fi
@@ -34,16 +34,16 @@ for k in $(seq 0 $((L-1))); do
       nsig=\$(echo \"\$res\" | grep -c 'signature:')
       echo \"\$name|\$id|\$rc|\$nsig|\$sig\" >> /verif/target/lane.out
       echo \"lane$k \$name \$rc \$sig\"
-    done < /tmp/lane$k/list
+    done < /tmp/${LANEP:-lane}$k/list
   " &
 done
 wait
 echo "| seeded change | property | caught by ($TIER) | first signature |" > $OUT.tmp
 echo "|---|---|---|---|" >> $OUT.tmp
-cat /tmp/lane*/verif/target/lane.out | sort | while IFS='|' read -r name id rc nsig sig; do
+cat /tmp/${LANEP:-lane}[0-9]*/verif/target/lane.out | sort | while IFS='|' read -r name id rc nsig sig; do
   if [ "$rc" = "exit=1" ]; then verdict="yes ($nsig signatures)"; else verdict="NO ($rc)"; fi
   echo "| $name | $id | $verdict | $sig |" >> $OUT.tmp
 done
 mv $OUT.tmp $OUT
 grep -c "| yes" $OUT; grep "| NO" $OUT
-for k in $(seq 0 $((L-1))); do rm -rf /tmp/lane$k; done
+for k in $(seq 0 $((L-1))); do rm -rf /tmp/${LANEP:-lane}$k; done
